@@ -35,12 +35,22 @@ class Snap:
         self.ids = [[id(x) for x in row] for row in self.o.objs]
         self.s = self.renderings(v)
         self.payload = str.__str__(v) if isinstance(v, L.AnsiStr) else None
+        self.tail = self.tail_of(v)
 
     @staticmethod
     def renderings(v):
         try:
             return [v.to_str(optimize=a, reset_start=b, reset_end=c) for a in (True, False) for b in (False, True)
                     for c in (True, False)]
+        except Exception as e:
+            raise O.ObsError(e)
+
+    @staticmethod
+    def tail_of(v):
+        # what a character appended to the value would look like: the only public way to see a start/stop marker
+        # sitting at or behind the end of the text (v + 'Z' builds a new value, v itself is not touched)
+        try:
+            return str(v + 'Z')
         except Exception as e:
             raise O.ObsError(e)
 
@@ -62,6 +72,9 @@ class Snap:
                 k < 4, k % 4 >= 2, k % 2 == 0, self.s[k], r2[k])
         if self.payload is not None and str.__str__(v) != self.payload:
             return 'str payload changed'
+        t2 = self.tail_of(v)
+        if t2 != self.tail:
+            return "rendering of (value + 'Z') %r -> %r" % (self.tail, t2)
         return None
 
 
